@@ -120,3 +120,29 @@ def runConvSeq (b : Block) : Res :=
   { conform := none, prop := bad, stats := [s!"size={b.lines.length}", "execs=1", "outcome=ok"] }
 
 end ArgMapper.Driver
+
+namespace ArgMapper.Driver
+
+/-- `race` blocks: goroutines sharing a target, converter objects and one option slice, run under the
+race detector.  No model replay here (the interleaving is not observable); the verdicts are the
+property's own observables: no data race reported, every concurrent outcome is one a sequential run
+produced, a run-once body ran at most once. -/
+def runRace (b : Block) : Res :=
+  if b.head.contains "builderr" then { propNA := true, stats := ["outcome=builderr"] } else
+  let seq := (((field b "seq").getD []).headD "").splitOn "," |>.filter (· ≠ "")
+  let got := (((field b "got").getD []).headD "").splitOn "," |>.filter (· ≠ "") |>.map (fun s => (s.splitOn "*").headD "")
+  let once := (((field b "once").getD []).headD "").splitOn "," |>.filter (· ≠ "") |>.filterMap (fun s =>
+    match s.splitOn ":" with | [f, n] => some (natOf f, natOf n) | _ => none)
+  let raceL := (field b "race").getD []
+  let c12 : Option String :=
+    if raceL.head? = some "yes" then some s!"data_race:{raceL.getD 1 "?"}"
+    else match got.find? (fun o => (o.startsWith "ok:" || o.startsWith "err:" || o.startsWith "panic:") && !seq.contains o) with
+      | some o => some s!"concurrent_outcome_{o}_never_produced_sequentially_{seq}"
+      | none => if raceL.isEmpty then some "no_race_verdict" else none
+  let c11 : Option String := (once.find? (fun p => p.2 > 1)).map (fun p => s!"run-once_function_f{p.1}_executed_{p.2}_times_concurrently")
+  let c06 : Option String := (got.find? (fun o => o.startsWith "panic:")).map (fun o => s!"concurrent_{o}")
+  { conform := none, propNA := true,
+    props := [("C12", verdictStr c12), ("C11", verdictStr c11), ("C06", verdictStr c06)],
+    stats := [s!"execs={(once.map (·.2)).foldl (· + ·) 0 + 1}", s!"once={once.length}", s!"outcome=race", s!"convs={once.length}"] }
+
+end ArgMapper.Driver
